@@ -148,7 +148,13 @@ type runner struct {
 	events  map[*aucoalesce.Event]int
 	evByID  map[int]*HEvent
 	logByID map[int]*HLogin
+	wd      *hutil.Watchdog // supervises every call into the correlator (nil: unsupervised)
 }
+
+// the process-wide watchdog of the sequential / exhaustive / replay drivers (one driving goroutine)
+var seqWatchdog *hutil.Watchdog
+
+var phaseCall, phaseDump = "call", "state dump"
 
 func tick() time.Time {
 	prev := time.Now()
@@ -162,7 +168,7 @@ func tick() time.Time {
 
 func newRunner(h History) *runner {
 	r := &runner{h: h, enc: &recEnc{budget: h.Budget}, logins: map[*auditevent.AuditEvent]int{},
-		events: map[*aucoalesce.Event]int{}, evByID: map[int]*HEvent{}, logByID: map[int]*HLogin{}}
+		events: map[*aucoalesce.Event]int{}, evByID: map[int]*HEvent{}, logByID: map[int]*HLogin{}, wd: seqWatchdog}
 	var lg *zap.SugaredLogger
 	if h.Debug {
 		lg = hutil.Logger(true)
@@ -201,6 +207,7 @@ func (r *runner) mkEvent(e *HEvent) *aucoalesce.Event {
 	ev.Process.PID = e.PIDText
 	ev.Summary.Action = "did-" + e.Type
 	ev.Summary.Object.Primary = fmt.Sprintf("ev-%d", e.ID)
+	applyFields(ev, e)
 	r.events[ev] = e.ID
 	return ev
 }
@@ -276,8 +283,13 @@ func decodeEmitted(m map[string]any, opIdx int) (emitted, error) {
 
 func (r *runner) run() runResult {
 	var res runResult
+	// every call into the correlator, and every dump of its state (which takes the maps' locks), runs under the
+	// watchdog: one that does not return is reported with this history as the failing input (see seqHang)
+	r.wd.Context(&r.h)
 	r.bounds = append(r.bounds, tick())
+	r.wd.Enter(-1, &phaseDump)
 	pre, err := r.dump()
+	r.wd.Leave()
 	if err != nil {
 		res.Err = err.Error()
 		return res
@@ -286,18 +298,30 @@ func (r *runner) run() runResult {
 		var e error
 		preB := r.enc.budget
 		nOut := len(r.enc.out)
+		var rul common.RemoteUserLogin
+		var aev *aucoalesce.Event
 		switch o.Kind {
 		case "login":
-			e = r.tr.RemoteLogin(r.mkLogin(o.Login))
+			rul = r.mkLogin(o.Login)
 		case "audit":
-			e = r.tr.AuditdEvent(r.mkEvent(o.Event))
+			aev = r.mkEvent(o.Event)
+		}
+		r.wd.Enter(i, &phaseCall)
+		switch o.Kind {
+		case "login":
+			e = r.tr.RemoteLogin(rul)
+		case "audit":
+			e = r.tr.AuditdEvent(aev)
 		case "clean_sess":
 			r.tr.DeleteUsersWithoutLoginsBefore(r.bounds[o.Cut])
 		case "clean_logins":
 			r.tr.DeleteRemoteUserLoginsBefore(r.bounds[o.Cut])
 		}
+		r.wd.Leave()
 		r.bounds = append(r.bounds, tick())
+		r.wd.Enter(i, &phaseDump)
 		post, derr := r.dump()
+		r.wd.Leave()
 		if derr != nil {
 			res.Err = fmt.Sprintf("after op %d: %v", i, derr)
 			return res
@@ -316,6 +340,50 @@ func (r *runner) run() runResult {
 		pre = post
 	}
 	return res
+}
+
+// ---------- a call that does not return ----------
+
+const keyDeadlock = "deadlock:call-did-not-return"
+
+func logLevelOf(debug bool) string {
+	if debug {
+		return "DEBUG"
+	}
+	return "default (INFO)"
+}
+
+// describeHang: what the watchdog saw, in words; the failing input is the history (incl. its log level).
+func describeHang(ctx any, call int, phase string, waited time.Duration) (*History, string) {
+	h, _ := ctx.(*History)
+	if h == nil {
+		return nil, fmt.Sprintf("deadlock: a correlator call did not return within %v", waited.Round(time.Second))
+	}
+	op := "the initial state dump"
+	if call >= 0 && call < len(h.Ops) {
+		op = fmt.Sprintf("op %d of %d, %s", call, len(h.Ops), h.Ops[call].String())
+	}
+	what := "call did not return"
+	if phase == phaseDump {
+		what = "the call returned but reading the correlator's maps afterwards did not (a lock is still held)"
+	}
+	return h, fmt.Sprintf("deadlock: %s within %v: %s; log level %s; the delivering goroutine is stuck inside the correlator, nothing after this operation is processed",
+		what, waited.Round(time.Second), op, logLevelOf(h.Debug))
+}
+
+// seqHangReporter: the watchdog handler of the generating drivers (random and exhaustive histories): the hang is an
+// oracle failure with the history as replay; what was gathered so far is written and the process ends (it is
+// poisoned: a goroutine sits inside the correlator holding its locks).
+func seqHangReporter(sum *hutil.Summary, cases *hutil.CaseFile, out string) func(any, int, string, time.Duration) {
+	return func(ctx any, call int, phase string, waited time.Duration) {
+		h, what := describeHang(ctx, call, phase, waited)
+		sum.FailKey("oracle", keyDeadlock, what, map[string]any{"history": h, "detail": map[string]any{"op": call, "phase": phase}})
+		sum.Notes = append(sum.Notes, "the run was cut short: a correlator call did not return (process poisoned, exploration stopped)")
+		cases.Flush()
+		sum.CaseFiles = cases.Files
+		sum.Write(out)
+		os.Exit(0)
+	}
 }
 
 // ---------- Coq rendering (compact format of Model/TrackerCheck.v) ----------
@@ -474,6 +542,7 @@ func main() {
 	replay := flag.String("replay", "", "replay file")
 	maxSess := flag.Int("sessions", 6, "max sessions per history")
 	exhLen := flag.Int("len", 4, "mode exh: maximal history length")
+	exhXLen := flag.Int("xlen", 0, "mode exh: maximal history length of the one-pid scope (0 = len+1)")
 	exhCoq := flag.Int("coq", 1500, "mode exh: at most this many histories are replayed against the Coq model")
 	flag.Parse()
 	seed := hutil.SeedFromEnv()
@@ -481,7 +550,7 @@ func main() {
 		os.Exit(doReplay(*replay, *prop))
 	}
 	if *mode == "exh" {
-		exhMain(*out, *prop, *exhLen, *exhCoq, seed)
+		exhMain(*out, *prop, *exhLen, *exhXLen, *exhCoq, seed)
 		return
 	}
 	if *mode == "conc" {
@@ -498,22 +567,23 @@ func main() {
 		Footer: func(int) string {
 			return "Definition M := Eval vm_compute in mismatches cases.\nPrint M.\nDefinition B := Eval vm_compute in first_bad cases.\nPrint B.\n"
 		}}
-	modes := modesFor(*prop)
-	for i := 0; i < *n; i++ {
-		m := modes[i%len(modes)]
-		h := genHistory(r, m, *maxSess)
+	seqWatchdog = hutil.NewWatchdog(seqHangReporter(sum, cases, *out))
+	samples := 0
+	process := func(m string, h History, withCoq bool) {
 		rn := newRunner(h)
 		res := rn.run()
 		if res.Err != "" {
 			sum.Fail("harness", "cannot interpret the implementation's state: "+res.Err, h)
-			continue
+			return
 		}
-		c, err := rn.coqCase(res)
-		if err != nil {
-			sum.Fail("harness", err.Error(), h)
-			continue
+		if withCoq {
+			c, err := rn.coqCase(res)
+			if err != nil {
+				sum.Fail("harness", err.Error(), h)
+				return
+			}
+			cases.AddDesc(c, h)
 		}
-		cases.AddDesc(c, h)
 		for _, f := range judge(*prop, h, res) {
 			sum.FailKey("oracle", f.key, f.what, map[string]any{"history": h, "detail": f.detail})
 		}
@@ -523,17 +593,50 @@ func main() {
 		if h.Debug {
 			sum.Dist("debug_logging_on")
 		}
+		if !withCoq {
+			sum.Dist("judged_by_the_oracle_only_(no_Coq_case)")
+		}
+		sum.Dist("serials_" + h.Serials)
+		sum.Dist("record_timestamps_" + h.Stamps)
+		if st.oldSesOpen {
+			sum.Dist("a_waiting_LOGIN_record_names_an_open_correlated_session_in_old-ses")
+		}
 		sum.Dist(fmt.Sprintf("sessions_%d", len(h.Plans)))
 		sum.Dist(fmt.Sprintf("ops_%02d-%02d", len(h.Ops)/10*10, len(h.Ops)/10*10+9))
 		sum.Dist(fmt.Sprintf("max_open_%d", st.maxOpen))
+		sum.Dist(fmt.Sprintf("max_pending_at_once_%d", st.maxPending))
+		sum.Dist(fmt.Sprintf("max_held_by_one_session_%02d-%02d", st.maxHeld/8*8, st.maxHeld/8*8+7))
 		sum.Dist(fmt.Sprintf("flushes_%d", st.flushes))
 		sum.Dist(fmt.Sprintf("emitted_%02d-%02d", len(res.Emitted)/10*10, len(res.Emitted)/10*10+9))
-		if i < 3 {
+		if samples < 3 {
+			samples++
 			var ops []string
 			for _, o := range h.Ops {
 				ops = append(ops, o.String())
 			}
 			sum.Sample(map[string]any{"mode": m, "ops": strings.Join(ops, " ; "), "emitted": len(res.Emitted)})
+		}
+	}
+	modes := modesFor(*prop)
+	// serials, timestamps and the records' other fields: from a generator of their own (fields.go)
+	dr := hutil.NewRand(seed ^ hashStr(*prop) ^ hashStr("fields"))
+	for i := 0; i < *n; i++ {
+		m := modes[i%len(modes)]
+		h := genHistory(r, m, *maxSess)
+		h.Serials, h.Stamps = decorate(dr, h.Ops, h.Plans)
+		process(m, h, true)
+	}
+	// further families, each from a generator of its own (the histories above stay what they were)
+	for _, fam := range familiesFor(*prop) {
+		fr := hutil.NewRand(seed ^ hashStr(*prop) ^ hashStr("family:"+fam.name))
+		cnt := *n * fam.num / fam.den
+		if cnt < 1 {
+			cnt = 1
+		}
+		for i := 0; i < cnt; i++ {
+			h := fam.gen(fr)
+			h.Serials, h.Stamps = decorate(fr, h.Ops, h.Plans)
+			process(fam.name, h, fam.coq)
 		}
 	}
 	cases.Flush()
@@ -567,24 +670,80 @@ func modesFor(prop string) []string {
 	return []string{"wf", "reuse", "mixed", "cleanup", "faults"}
 }
 
+// family: a further kind of history, generated in addition to the basic modes; num/den of -n histories of it are run;
+// coq: also replayed step by step against the Coq model (long histories are judged by the oracle only: the observed
+// state is printed after every step, and Coq reads literals slowly)
+type family struct {
+	name     string
+	gen      func(r *hutil.Rand) History
+	num, den int
+	coq      bool
+}
+
+func familiesFor(prop string) []family {
+	pending := family{"pending", func(r *hutil.Rand) History { return genPending(r, false) }, 1, 5, true}
+	pendingBig := family{"pending-big", func(r *hutil.Rand) History { return genPending(r, true) }, 1, 2, false}
+	relogin := family{"relogin", genRelogin, 1, 4, true}
+	overtake := family{"overtake", genOvertake, 1, 3, true}
+	switch prop {
+	case "C01", "C02":
+		return []family{pending, pendingBig}
+	case "C04", "C14":
+		return []family{pending}
+	case "C09":
+		return []family{pending, overtake}
+	case "C16":
+		return []family{pending, relogin}
+	}
+	return []family{pending, pendingBig, relogin, overtake}
+}
+
 func ruleText(prop string) string {
 	return "histories generated per mode (wf: unique pids/sessions; reuse: chains of sessions sharing a PID; mixed: plus cron/console/su-like sessions and records without session; " +
 		"cleanup: cleanup calls with cut-offs at earlier time boundaries; faults: invalid logins, unparsable PIDs, write budget), 1-6 sessions interleaved in bursts, login at a random split point of its session; " +
+		"every record carries a kernel serial (per history: all zero, increasing, all equal, decreasing, wrapping through 2^32, late lower-numbered records, arbitrary), a timestamp of its own (2023, around / before / after the wall clock, descending) and the other fields the coalescer delivers (old-ses, old-auid, auid, tty, terminal, ppid, exe, addr, acct) with values naming OTHER sessions, pids and users of the history - none of which the properties mention; " +
+		"family relogin (C16): a pid logs in 2-3 times before its LOGIN record, cleanup cut-offs between the log times of an earlier and the last login (the last must stay waiting; its session is correlated); " +
+		"family overtake (C09): chains of sessions opened by one re-used pid, the new login anywhere after the previous login and LOGIN record - before, between and after the ended session's last records; " +
+		"family pending: 2-4 sessions waiting for their logins at the same time, each holding 0-12 events (pending-big: up to 40 and the sizes at which a slice grows; judged by the oracle only), opened in any order, filled in turns or one after the other, logins in any order; " +
 		"every call is followed by a dump of the correlator state (per-step simulation against the model) and the " + prop + " oracle runs on the emitted events; " +
 		"non-trivial = at least 2 sessions open at once and at least one hold-queue flush; distinct by op sequence"
 }
 
 type hstats struct {
 	maxOpen    int
+	maxPending int // sessions waiting for their login at the same time
+	maxHeld    int // events held by one session
 	flushes    int
 	nontrivial bool
+	oldSesOpen bool // a LOGIN record that had to wait for its login named, in old-ses, a session that was open and correlated
 }
 
 func stats(h History, res runResult) hstats {
 	var s hstats
-	for _, st := range res.Steps {
+	for i, st := range res.Steps {
+		if o := h.Ops[i]; o.Kind == "audit" && o.Event.Type == "LOGIN" {
+			if u, ok := st.Pre.Sess[o.Event.Fields["old-ses"]]; ok && u.LoginID >= 0 {
+				if _, was := st.Pre.Sess[o.Event.Ses]; !was {
+					if nu, now := st.Post.Sess[o.Event.Ses]; now && nu.LoginID < 0 {
+						s.oldSesOpen = true
+					}
+				}
+			}
+		}
 		if len(st.Post.Sess) > s.maxOpen {
 			s.maxOpen = len(st.Post.Sess)
+		}
+		pend := 0
+		for _, u := range st.Post.Sess {
+			if u.LoginID < 0 {
+				pend++
+			}
+			if len(u.Cached) > s.maxHeld {
+				s.maxHeld = len(u.Cached)
+			}
+		}
+		if pend > s.maxPending {
+			s.maxPending = pend
 		}
 		if len(st.Out) >= 2 {
 			s.flushes++
@@ -625,19 +784,30 @@ func doReplay(path, prop string) int {
 		return 2
 	}
 	h := *rp.Replay.History
-	rn := newRunner(h)
-	res := rn.run()
-	if res.Err != "" {
-		fmt.Println("harness error:", res.Err)
-		return 2
+	// the same watchdog as in the generating run: a call that still does not return reproduces the failure
+	seqWatchdog = hutil.NewWatchdog(func(ctx any, call int, phase string, waited time.Duration) {
+		_, what := describeHang(ctx, call, phase, waited)
+		fmt.Printf("REPRODUCED %s: %s\n", keyDeadlock, what)
+		os.Exit(1)
+	})
+	// a sequential history is deterministic except for Go's map iteration order (the scan of RemoteLogin, the sweeps of
+	// the cleanups): a failure that needs a particular order recurs within a few runs
+	const runs = 300
+	for k := 1; k <= runs; k++ {
+		rn := newRunner(h)
+		res := rn.run()
+		if res.Err != "" {
+			fmt.Println("harness error:", res.Err)
+			return 2
+		}
+		fs := judge(prop, h, res)
+		for _, f := range fs {
+			fmt.Printf("REPRODUCED %s (run %d of at most %d): %s\n", f.key, k, runs, f.what)
+		}
+		if len(fs) > 0 {
+			return 1
+		}
 	}
-	fs := judge(prop, h, res)
-	for _, f := range fs {
-		fmt.Printf("REPRODUCED %s: %s\n", f.key, f.what)
-	}
-	if len(fs) > 0 {
-		return 1
-	}
-	fmt.Println("not reproduced")
+	fmt.Printf("not reproduced in %d runs\n", runs)
 	return 0
 }
